@@ -2,6 +2,8 @@
 
 package verifrt
 
+import "sync"
+
 // Go replaces `go f(x)` in rewritten files (R-go). Background loops can be
 // suppressed by name (their single effect is then delivered by the harness at
 // explorer-chosen points); under the controlled scheduler the goroutine is a
@@ -10,10 +12,14 @@ var Suppress = map[string]bool{}
 
 // Spawned counts Go calls per name (coverage / sanity).
 var Spawned = map[string]int{}
+var spawnedMu sync.Mutex
 
 func Go(name string, f func()) {
+	spawnedMu.Lock()
 	Spawned[name]++
-	if Suppress[name] {
+	sup := Suppress[name]
+	spawnedMu.Unlock()
+	if sup {
 		return
 	}
 	if s := curSched; s != nil {
@@ -21,4 +27,11 @@ func Go(name string, f func()) {
 		return
 	}
 	go f()
+}
+
+// SetSuppress is the goroutine-safe way to add a name to Suppress.
+func SetSuppress(name string) {
+	spawnedMu.Lock()
+	Suppress[name] = true
+	spawnedMu.Unlock()
 }
